@@ -27,10 +27,10 @@ CLAIMS = {
  'C08': dict(cat='proof', ref='DESIGN 3 C08', technique='interval partition of the value range by the impls\' comparisons; per-cell identity with the specification table',
    text='The five integer impls (delegation chain inlined) are partitioned by their comparison constants; on every cell of every type the flat emission equals the specification table entry, so every value of every type is covered and equal values give equal bytes.',
    note='64-bit target (usize cfg arm as built).'),
- 'C09': dict(cat='other', ref='DESIGN 3 C09', technique='interval partition on the segment count for the emitter; abstract evaluation of the parser with guard-dominates-store rule',
+ 'C09': dict(cat='other', ref='DESIGN 3 C09', technique='interval partition on the segment count for the emitter; abstract evaluation of the parser with guard-dominates-store rule; semantic comparison of the parser result (split offset by case analysis, refusal by assertion or copy length)',
    text='Path emission equals root?/prefix(n)/segments for every n in 1..=255 (cells), empty paths are refused; Path::new derives rootedness and segments as specified and the 4-byte assertion precedes every store.',
    note='str::split / starts_with are uninterpreted functions of the input; character alphabet not validated (not required).'),
- 'C16': dict(cat='other', ref='DESIGN 3 C16', technique='term identity between the abstractly evaluated constructors and the specification packing; guard-presence rule',
+ 'C16': dict(cat='other', ref='DESIGN 3 C16', technique='term identity between the abstractly evaluated constructors and the specification packing; guard-presence rule; no refusal beyond the specification',
    text='EISAName::new stores exactly swap_bytes of the specified 5/5/5/4/4/4/4-bit packing (term identity under valid-character ranges) and emits it as an integer constant; Uuid::new produces the 16 bytes of the mixed-endian map and emits them as a Buffer; all refusing assertions/unwraps (length, dashes, hex digits) are present on the only path to the value.',
    note='char::to_digit modelled by its std contract; ASCII input assumed for char/byte index agreement.'),
 
@@ -41,10 +41,10 @@ CLAIMS = {
    text='Scope::raw resolves, for every prefix width m >= 1 symbolically, to ScopeOp ++ PkgLength(n-1) ++ path ++ children, identical to impl Aml for Scope; PackageBuilder::new/add_element keep (bytes = concatenated children, counter = count) and its emission equals Package\'s under that relation; &str/String and usize/u64 have identical shapes.',
    note='copy_within/copy_from_slice/resize modelled as interval writes per the std contract.'),
 
- 'C03': dict(cat='other', ref='DESIGN 3 C03', technique='abstract interpretation: tagged specification segments (type/len/count/offset) vs emission shape; inductive count invariants; vector-append rule',
+ 'C03': dict(cat='other', ref='DESIGN 3 C03', technique='abstract interpretation: tagged specification segments (type/len/count/offset) vs emission shape; inductive count invariants; vector-append rule; element-append rule for entry structures',
    text='For 43 entry constructors the type code and length-of-self fields equal the specification constant and the symbolic size of the entry\'s own emission; 15 count fields equal the number of repeated elements (stored counts by induction over the API); array offsets equal array positions; each of the 12 variable-body tables serialises as header ++ fixed part of the specified size ++ its entry vector, and all 29 add operations append exactly their argument at the end. Two recorded findings (RDPAS, RINTC affinity).',
    note='Tags come from spec/layouts.py; with C02 the walk by entry lengths tiles the image.'),
- 'C04': dict(cat='translation_validation', ref='DESIGN 3 C04', technique='translation-validation-style comparison of the emission shape of constructor(args) with a specification-derived layout; setter placement via symbolic receiver; rustc field offsets',
+ 'C04': dict(cat='translation_validation', ref='DESIGN 3 C04', technique='translation-validation-style comparison of the emission shape of constructor(args) with a specification-derived layout; setter placement via symbolic receiver; rustc field offsets; setter effects; bit-packing side conditions under dominating refusals; constructor-to-field wiring',
    text='68 structures (all tables and entry types) are compared field by field - offset, width, little-endian, source parameter, constants, reserved values, derived values - with independently written layouts; 100+ setter-filled fields are located through the serialiser on a symbolic receiver; packed-struct offsets from rustc are compared with the specification for FADT (64 fields), GAS, the table header and the TCPA server table. Three recorded findings share two roots (GenericErrorData section type, RINTC affinity).',
    note='The oracle is my reading of the specifications (RIMT pinned to today\'s tree); validity of caller values is out of scope.'),
  'C11': dict(cat='other', ref='DESIGN 3 C11', technique='effect summaries (write set + update term) of every builder by abstract interpretation vs bit table; enum discriminants vs specification values; contradiction rule',
@@ -53,14 +53,14 @@ CLAIMS = {
  'C12': dict(cat='other', ref='DESIGN 3 C12', technique='store-index normal form on symbolic states vs row-major specification; constructor fill; emission order',
    text='HMAT: one store at i*len(targets)+j, I*T cells of 0xFFFF, row-major emission; SLIT: stores exactly at a+N*b and b+N*a, N*N cells of 10, emission in index order; no other writers. Last-value-wins then follows from Vec element-store semantics; the checksum clause is C01\'s.',
    note='Index arithmetic overflow is a C18 site.'),
- 'C13': dict(cat='proof', ref='DESIGN 3 C13', technique='interval-write summaries of every Sdt operation vs the byte-vector model; must-pass-through and guard-before-mutation ordering on the evaluation log',
+ 'C13': dict(cat='proof', ref='DESIGN 3 C13', technique='interval-write summaries of every Sdt operation vs the byte-vector model; must-pass-through and guard-before-mutation ordering on the evaluation log; normal form of the resulting image; sink entry points; callers-of rule for private writers',
    text='All 14 public operations (typed variants expanded) have exactly the model\'s effective writes plus the checksum byte, end in the zero/sum/store sequence with nothing after it, and evaluate their bounds assertion before any mutation; only five primitives write the image; new lays out the standard header; len >= 36 is inductive.',
    note='Vec/slice primitives modelled per std contract; tables < 4 GiB.'),
- 'C14': dict(cat='other', ref='DESIGN 3 C14', technique='purity/effect rules over the typed program; sink-use rule; sink-method agreement and raw-vs-serialised identity by abstract evaluation',
+ 'C14': dict(cat='other', ref='DESIGN 3 C14', technique='purity/effect rules over the typed program; sink-use rule; sink-method agreement and raw-vs-serialised identity by abstract evaluation; generic decision of in-crate sink kinds (byte store / byte sum / byte counter / generic table)',
    text='No statics, interior mutability or hand-written unsafe exist and serialisers take &self; all 152 serialisers evaluate with no unknown callee; all 581 uses of a sink value are receiver-of-the-five-methods or forwarding; the four default methods and every override of the four in-crate sinks deliver exactly the little-endian bytes in order; for the 31 types that are both IntoBytes and Aml the emission equals the layout bytes.',
    note='Foreign sinks/types are out of reach; little-endian target.'),
 
- 'C18': dict(cat='other', ref='DESIGN 3 C18', technique='value-range analysis (abstract interpretation with guards as dominating facts and private-field invariants) over every narrowing cast, overflow-prone arithmetic, discarding mask and wrapping op; MIR site cross-check',
+ 'C18': dict(cat='other', ref='DESIGN 3 C18', technique='value-range analysis (abstract interpretation with guards as dominating facts and private-field invariants) over every narrowing cast, overflow-prone arithmetic, discarding mask and wrapping op; MIR site cross-check; worst-context site classification; refusal must be false on the whole oversize cell',
    text='Every serialiser (152, on symbolic receivers) and every public function (300+, on symbolic arguments) is scanned: each narrowing cast, + - *, lossy mask or emitted wrapping op whose operand range is not proven to fit by a dominating guard is classified capacity-bounded / plain value / index-only (informational) or unguarded (violation). The site set is cross-checked against rustc\'s MIR narrowing casts and overflow assertions, which exist only with overflow checks on - so what is left unguarded is exactly what would wrap in release. 37 unguarded sites found on the original tree were repaired by fix: commits.',
    note='Capacity rule: >= 32-bit totals of sizes of objects that already exist in memory (>= 4 GiB images) are informational.'),
 }
@@ -86,7 +86,7 @@ def main():
          'engines': [{'name': 'afx', 'path': 'tools/afx', 'serves_properties': sorted(CLAIMS), 'kind_free_text': 'rustc_private driver: dumps typed THIR, resolved callees, layouts, evaluated constants, MIR overflow/cast sites'},
                      {'name': 'engine', 'path': 'engine', 'serves_properties': sorted(CLAIMS), 'kind_free_text': 'Python abstract interpreter over the THIR facts (symbolic term / emission-shape / byte-sum domains) + rule modules in rules/'}],
          'checks': checks, 'not_applicable': na,
-         'notes': 'Static analysis only: nothing here runs the crate, its tests, a fuzzer or a solver. See DESIGN.md.'}
+         'notes': 'Static analysis only: nothing here runs the crate, its tests, a fuzzer or a solver. The thorough tier adds a release-like extraction (profile independence), type-level compile_fail witnesses, clippy/MIR cross-enumeration (C18) and a perturbation audit of the extracted program (engine/perturb.py). See DESIGN.md, section 8.'}
     json.dump(m, open(os.path.join(HERE, 'MANIFEST.json'), 'w'), indent=1)
     print('MANIFEST: %d checks, %d not_applicable' % (len(checks), len(na)))
 
